@@ -3,7 +3,12 @@ package main
 import (
 	"bytes"
 	"context"
+	"encoding/json"
 	"fmt"
+	"time"
+
+	types2 "github.com/aws/aws-sdk-go-v2/service/dynamodb/types"
+	ddb1 "github.com/aws/aws-sdk-go/service/dynamodb"
 
 	"github.com/aws/aws-sdk-go/aws"
 	"github.com/aws/aws-sdk-go/aws/session"
@@ -151,6 +156,7 @@ func runMetaCase(c *metaCase) {
 		}
 	}
 	stored := map[[2]int64]bool{} // (id, created) of every Store that reported success
+	flagged := map[[2]int64]bool{} // (id, created) of every stored key an operator has flagged revoked since (op "revoke")
 	for i, op := range c.Ops {
 		var ob metaObs
 		faultable := c.sqlT != nil || c.dyn != nil
@@ -186,6 +192,63 @@ func runMetaCase(c *metaCase) {
 				} else {
 					ob.R = "false"
 				}
+			case "revoke":
+				// an operator flags the stored key revoked, directly in the table (the SDK has no API for it)
+				ob.R = "skip"
+				if !stored[[2]int64{int64(op.ID), op.C}] {
+					break
+				}
+				switch {
+				case c.dyn != nil:
+					it := c.dyn.Peek(metaIDs[op.ID], op.C)
+					if it == nil {
+						break
+					}
+					switch attrs := it.Attrs.(type) {
+					case map[string]*ddb1.AttributeValue:
+						g := gM{}
+						for kk, v := range attrs {
+							g[kk] = fromV1(v)
+						}
+						if rec, ok := g["KeyRecord"].(gM); ok {
+							rec["Revoked"] = gB(true)
+						}
+						out := map[string]*ddb1.AttributeValue{}
+						for kk, v := range g {
+							out[kk] = toV1(v)
+						}
+						c.dyn.Update(metaIDs[op.ID], op.C, out)
+					case map[string]types2.AttributeValue:
+						g := gM{}
+						for kk, v := range attrs {
+							g[kk] = fromV2(v)
+						}
+						if rec, ok := g["KeyRecord"].(gM); ok {
+							rec["Revoked"] = gB(true)
+						}
+						out := map[string]types2.AttributeValue{}
+						for kk, v := range g {
+							out[kk] = toV2(v)
+						}
+						c.dyn.Update(metaIDs[op.ID], op.C, out)
+					}
+					ob.R = "true"
+				case c.sqlT != nil:
+					t := time.Unix(op.C, 0)
+					if old := c.sqlT.Lookup(metaIDs[op.ID], t); old != "" {
+						var m map[string]any
+						if json.Unmarshal([]byte(old), &m) == nil {
+							m["Revoked"] = true
+							b, _ := json.Marshal(m)
+							if c.sqlT.SetRec(metaIDs[op.ID], t, string(b)) {
+								ob.R = "true"
+							}
+						}
+					}
+				}
+				if ob.R == "true" {
+					flagged[[2]int64{int64(op.ID), op.C}] = true
+				}
 			case "load", "latest":
 				var e *ae.EnvelopeKeyRecord
 				var err error
@@ -215,6 +278,18 @@ func runMetaCase(c *metaCase) {
 					}
 				default:
 					ob.R = "some"
+					if kc := op.C; op.K == "load" && flagged[[2]int64{int64(op.ID), kc}] && !e.Revoked {
+						c.Viol = append(c.Viol, fmt.Sprintf("op %d: the Revoked flag set in the table is not visible to a later Load of that key (a stale read: the session's revoke check would miss it)", i))
+					}
+					newest := int64(-1 << 62) // the key LoadLatest has to return: the greatest creation time stored under this id
+					for k := range stored {
+						if k[0] == int64(op.ID) && k[1] > newest {
+							newest = k[1]
+						}
+					}
+					if op.K == "latest" && flagged[[2]int64{int64(op.ID), newest}] && !e.Revoked {
+						c.Viol = append(c.Viol, fmt.Sprintf("op %d: the Revoked flag set in the table is not visible to a later LoadLatest returning that key (a stale read: the session's revoke check would miss it)", i))
+					}
 					var bad string
 					ob.Rec, bad = fromEKR(e)
 					if bad != "" {
@@ -228,6 +303,9 @@ func runMetaCase(c *metaCase) {
 }
 
 var metaImpls = []string{"memory", "sql-mysql", "sql-postgres", "sql-oracle", "dynamo-v1", "dynamo-v2"}
+
+// metaRevokes: also generate "revoke" operations (C05's dependency on the metastores: the flag must be visible to the next read)
+var metaRevokes bool
 
 func genMetaCase(r *gen.Rand, impl string) *metaCase {
 	c := &metaCase{Impl: impl}
@@ -256,6 +334,20 @@ func genMetaCase(r *gen.Rand, impl string) *metaCase {
 				c.Ops = append(c.Ops, metaOp{K: gen.Pick(r, []string{"load", "latest"}), ID: id, C: cr})
 			}
 		case 4, 5, 6:
+			if metaRevokes && r.Chance(1, 2) {
+				var st []metaOp
+				for _, o := range c.Ops {
+					if o.K == "store" && o.Fault == "" {
+						st = append(st, o)
+					}
+				}
+				if len(st) > 0 {
+					o := gen.Pick(r, st)
+					id, cr = o.ID, o.C
+				}
+				c.Ops = append(c.Ops, metaOp{K: "revoke", ID: id, C: cr}, metaOp{K: gen.Pick(r, []string{"load", "latest"}), ID: id, C: cr})
+				continue
+			}
 			c.Ops = append(c.Ops, metaOp{K: "load", ID: id, C: cr})
 		default:
 			c.Ops = append(c.Ops, metaOp{K: "latest", ID: id})
@@ -298,6 +390,7 @@ func runMeta(a *args) error {
 		runMetaCase(c)
 		return gen.WriteJSON(a.out, map[string]any{"cases": []*metaCase{c}})
 	}
+	metaRevokes = a.extra == "revoke"
 	for i := 0; i < a.n; i++ {
 		c := genMetaCase(r, metaImpls[i%len(metaImpls)])
 		runMetaCase(c)
